@@ -48,7 +48,10 @@ PURE_FUNCS = {
 def _searchsorted(a, v, side='left', sorter=None):
     import bisect
     a = list(a)
-    return bisect.bisect_left(a, v) if side == 'left' else bisect.bisect_right(a, v)
+    one = (lambda x: bisect.bisect_left(a, x)) if side == 'left' else (lambda x: bisect.bisect_right(a, x))
+    if isinstance(v, (list, tuple)):
+        return [one(x) for x in v]          # array of insertion points for an array of values
+    return one(v)
 
 
 def _windowed(seq, n, fillvalue=None, step=1):
